@@ -130,6 +130,7 @@ def finish(pid: str, tier: str, obs: list[Ob], meta: dict, t0: float, errors: li
             "per_rule": counts,
             "floors": meta.get("floors") or {},
             "units": meta.get("units") or [],
+            "renamed_helpers": meta.get("renamed_helpers") or {},      # pinned name -> name in the analysed tree (recognised by fingerprint)
             "functions_analysed": meta.get("functions") or [],
             "unmodelled": meta.get("unmodelled") or [],
             "info": [o.short() for o in obs if o.status == INFO][:40],
@@ -155,6 +156,8 @@ def finish(pid: str, tier: str, obs: list[Ob], meta: dict, t0: float, errors: li
               f"info={sum(1 for o in obs if o.status == INFO)} wall={wall:.2f}s")
         for r in sorted(counts):
             print(f"  rule {r}: {counts[r]} instance(s)")
+        for a, b in sorted((meta.get("renamed_helpers") or {}).items()):
+            print(f"  note: helper `{a}` of the pinned tree is called `{b}` in the analysed tree (same fingerprint); reports use the pinned name")
         for ln in lines:
             print(ln)
     except BrokenPipeError:
